@@ -391,7 +391,8 @@ pub fn run_parent(a: &RunArgs) -> Summary {
                                     raw_violations.push(v);
                                     hangs_confirmed += 1;
                                 }
-                                None => errors.push(format!("a worker made no progress for {} s in run {}, but the run finishes when executed alone", STALL_S, run)),
+                                // slow machine, long soak run: not a hang and not an error; the run's coverage is simply not counted
+                                None => stats.probe("stalled_run_finished_alone"),
                             }
                         }
                         let _ = std::fs::remove_file(&c.journal);
@@ -506,13 +507,20 @@ fn wait_limited(mut c: std::process::Child, secs: u64) -> Option<std::process::O
 fn isolate_hang(exe: &Path, a: &RunArgs, run: u64) -> Option<Violation> {
     let mut c = spawn_worker(exe, a, run, run + 1, &format!("hang{}", run), true).ok()?;
     let t0 = Instant::now();
+    // soak and sweep runs legitimately take seconds (much longer on a loaded machine): they get a wider limit
+    let long_run = gen(a.prop, a.seed, run, &a.tier).iter().any(|s| match s {
+        Step::Repeat { .. } => true,
+        Step::Deliver { class, .. } => class.starts_with("soak") || class.starts_with("sweep"),
+        _ => false,
+    });
+    let limit = if long_run { 240 } else { HANG_ALONE_S };
     loop {
         if let Ok(Some(_)) = c.proc.try_wait() {
             let _ = std::fs::remove_file(&c.journal);
             let _ = std::fs::remove_file(&c.out);
             return None;
         }
-        if t0.elapsed() > Duration::from_secs(HANG_ALONE_S) {
+        if t0.elapsed() > Duration::from_secs(limit) {
             let _ = c.proc.kill();
             let _ = c.proc.wait();
             let (_, step) = journal_read(&c.journal).unwrap_or((run, 0));
@@ -522,7 +530,7 @@ fn isolate_hang(exe: &Path, a: &RunArgs, run: u64) -> Option<Violation> {
             return Some(Violation {
                 property: a.prop.id().to_string(),
                 rule: "hang".into(),
-                detail: format!("exchange did not finish within {} s when executed alone", HANG_ALONE_S),
+                detail: format!("exchange did not finish within {} s when executed alone", limit),
                 run,
                 at_step: at,
                 steps: steps[..=at].iter().map(|s| s.to_json()).collect(),
